@@ -298,6 +298,32 @@ def find_closure(path, fn_selector, k):
     return Item("closure", "%s#%d" % (it.name, k), path, btoks, None, _line_of(src, btoks[0].start), _line_of(src, btoks[-1].end - 1), params + " " + text, params)
 
 
+def find_call_arg(path, fn_selector, callee, k):
+    """the argument tokens of the k-th (1-based) call `callee(...)` inside the function selected by fn_selector
+       (callee given as a token sequence such as `Vec::with_capacity`). Returned as an Item of kind 'expr'."""
+    it = find_item(path, fn_selector)
+    src, _ = _load(path)
+    toks = it.toks
+    pat = [t.text for t in lex(callee) if t.kind not in ("ws", "lcomment", "bcomment")]
+    code = [i for i, t in enumerate(toks) if t.kind not in ("ws", "lcomment", "bcomment")]
+    hits = []
+    for ci in range(len(code) - len(pat)):
+        if all(toks[code[ci + q]].text == pat[q] for q in range(len(pat))) and toks[code[ci + len(pat)]].text == "(":
+            op = code[ci + len(pat)]
+            cl = match_close(toks, op)
+            hits.append((op, cl))
+    if k < 1 or k > len(hits):
+        raise LostAnchor("call #%d of %s in %r not found in %s (%d calls)" % (k, callee, fn_selector, path, len(hits)))
+    op, cl = hits[k - 1]
+    atoks = toks[op + 1:cl]
+    while atoks and atoks[0].kind == "ws":
+        atoks = atoks[1:]
+    while atoks and atoks[-1].kind == "ws":
+        atoks = atoks[:-1]
+    text = src[atoks[0].start:atoks[-1].end]
+    return Item("expr", "%s@%s#%d" % (callee, it.name, k), path, atoks, None, _line_of(src, atoks[0].start), _line_of(src, atoks[-1].end - 1), text, None)
+
+
 def list_items(path):
     src, toks = _load(path)
     out = []
